@@ -13,7 +13,9 @@ DECIDES = ('(a) packet-end discipline: every non-initial state of USBDataPacketD
            '(e) every ack site is guarded by timer.tx_allowed or speed == HIGH and every path out of the waiting state '
            'raises ack exactly once; while waiting for the SETUP data the decoder returns to its initial state on any new '
            'non-SETUP token and on a CRC-valid data packet that is not 8 bytes long, and keeps waiting (for the data of the new '
-           'transaction) on a new SETUP token -- so a retry after a corrupted data packet is not missed. ')
+           'transaction) on a new SETUP token -- so a retry after a corrupted data packet is not missed; the end of a packet that '
+           'produced neither new_token nor new_packet (corrupted data, traffic for another device) returns it to idle, through an '
+           'edge guarded by an end-of-packet register derived from utmi.rx_active alone. ')
 NOT_DECIDED = 'host-model histories (which packets follow which); endpoint number of the SETUP token (not checked by the decoder).'
 
 
@@ -121,6 +123,36 @@ def run(ctx):
                'a new SETUP token while still waiting for the data packet of an earlier SETUP (whose data packet was corrupted '
                'or lost) must keep the decoder waiting for data, otherwise the retried transaction is missed; outcomes %s'
                % sorted(map(str, outs)))
+    # the data-wait state is not sticky: a packet that ends WITHOUT being a token for us and without being a valid data
+    # packet (a corrupted data packet, traffic for another device -- neither raises new_token nor new_packet) must end the
+    # transaction; otherwise the next valid 8-byte data packet on the bus, whoever it is for, is reported as our SETUP
+    NT, NP, RXA = 'self.tokenizer.new_token', 'data_handler.new_packet', 'self.utmi.rx_active'
+
+    def _only_rx_active(name, depth=3):
+        """Is `name` a register computed (through at most `depth` registers) from utmi.rx_active alone?"""
+        ds = sd.drivers(name, exact=True)
+        if not ds or any(d.guard or d.state is not None or d.domain == 'comb' for d in ds):
+            return False
+        for d in ds:
+            for n in (d.rhs.sigs() if isinstance(d.rhs, E) else ()):
+                if n != RXA and not (depth > 0 and n != name and _only_rx_active(n, depth - 1)):
+                    return False
+        return True
+    for st in read_states:
+        esc = [e for e in f.out_edges(st) if e.dst == idle and (NT, True) not in q.atoms(e) and (NP, True) not in q.atoms(e)]
+        ends = [e for e in esc if any(p and _only_rx_active(x) for x, p in q.atoms(e))]
+        ok = bool(ends)
+        ctx.ob('C06.silent-packet-aborts', 'USBSetupDecoder.read', ok, f.state_loc[st],
+               'while waiting for the SETUP data, the end of a packet that produced neither new_token nor new_packet (a corrupted '
+               'data packet, a token or data for another device) must return the decoder to idle -- an edge to idle guarded by an '
+               'end-of-packet register derived from utmi.rx_active alone; edges to idle without new_token / new_packet: %s'
+               % [q.fmt(e)[:160] for e in esc])
+        for e in ends:
+            # ... and that edge must not fire for a packet that IS a token for us or a valid data packet
+            ok2 = (NT, False) in q.atoms(e) and (NP, False) in q.atoms(e)
+            ctx.ob('C06.silent-packet-aborts', 'USBSetupDecoder.read.only-silent-packets', ok2, e.loc,
+                   'the end-of-packet abort must be excluded by new_token and by new_packet (a SETUP retry and a valid data '
+                   'packet end in that very cycle and must be handled, not dropped): %s' % q.fmt(e)[:200])
     # a CRC-valid data packet of the wrong length ends the transaction: the decoder must not stay armed, or the data
     # packet of a later, unrelated transaction (another device's OUT data) would be taken for the SETUP payload
     for st in read_states:
